@@ -31,3 +31,65 @@ package internal
 //@   site#args NewInterface: $0 == typ.Obj().Name() && $1 == file && $2 == fileSyntax && $3 == pkg && $4 == nil
 //@   returns#loaderrors err == nil ==> (forall j int :: 0 <= j && j < len(packages) && len(packages[j].GoFiles) != 0 ==> len(packages[j].Errors) == 0)
 //@   loop 0: invariant forall j int :: 0 <= j && j < $i && len(packages[j].GoFiles) != 0 ==> len(packages[j].Errors) == 0
+
+// ---- C12: template-data is validated at every level before anything is produced ---------------
+//@ define validTD(schema *gojsonschema.Schema, td template.TemplateData) bool = second(schema.Validate(gojsonschema.NewGoLoader(td))) == nil && schema.Validate(gojsonschema.NewGoLoader(td)).Valid()
+//@ func validateSchema props=C12,C09
+//@   ensures#nilschema schema == nil ==> result != nil
+//@   ensures#all result == nil ==> validTD(schema, data.TemplateData) && (forall k int :: 0 <= k && k < len(data.Interfaces) ==> validTD(schema, data.Interfaces[k].TemplateData))
+//@   ensures#complete schema != nil && validTD(schema, data.TemplateData) && (forall k int :: 0 <= k && k < len(data.Interfaces) ==> validTD(schema, data.Interfaces[k].TemplateData)) ==> result == nil
+//@   loop 0: invariant forall j int :: 0 <= j && j < $i ==> validTD(schema, data.Interfaces[j].TemplateData)
+//@   assigns nothing
+
+// "unknown formatter" is an error (C09); the three documented names dispatch (C01 item 6).
+//@ func (*TemplateGenerator).format props=C09,C01
+//@   ensures g.formatter != FormatGoImports && g.formatter != FormatGofmt && g.formatter != FormatNoop ==> err != nil
+//@   ensures g.formatter == FormatNoop ==> err == nil && result == src
+
+// ---- remote templates and schemas (C12) -------------------------------------------------------
+// content(url): what a download of url yields during this run (assumed stable for the run).
+//@ spec content(url string) string
+//@ func download props=C12
+//@   trusted
+//@   ensures err == nil ==> result == content(url)
+//@   ensures err != nil ==> result == ""
+//@   assigns nothing
+
+// gojsonschema.NewSchema returns a schema whenever it returns no error (assumed).
+//@ axiom newschema_nonnil: forall l gojsonschema.JSONLoader :: second(gojsonschema.NewSchema(l)) == nil ==> gojsonschema.NewSchema(l) != nil
+//@ define schemaAt(url string) *gojsonschema.Schema = gojsonschema.NewSchema(gojsonschema.NewStringLoader(content(url)))
+// A cache entry that says "downloaded" really holds what its URLs yield.
+//@ define RTInv(r *RemoteTemplate) bool = (r.templateDownloaded ==> r.templateString == content(r.templateURL)) && (r.schemaDownloaded ==> r.schema != nil && r.schema == schemaAt(r.schemaURL))
+
+//@ func NewRemoteTemplate props=C12
+//@   ensures result != nil && fresh(result) && result.templateURL == templateURL && result.schemaURL == schemaURL && !result.templateDownloaded && !result.schemaDownloaded
+//@   assigns fresh
+
+// Downloaded at most once; an error is not cached as success.
+//@ func (*RemoteTemplate).Template props=C12
+//@   requires RTInv(r)
+//@   ensures#ok err == nil ==> result == content(r.templateURL) && RTInv(r)
+//@   ensures#urls r.templateURL == old(r.templateURL) && r.schemaURL == old(r.schemaURL) && r.schemaDownloaded == old(r.schemaDownloaded) && r.schema == old(r.schema)
+//@   assigns r.templateDownloaded, r.templateString
+
+//@ func (*RemoteTemplate).Schema props=C12
+//@   requires RTInv(r)
+//@   ensures#ok err == nil ==> result != nil && result == schemaAt(r.schemaURL) && RTInv(r)
+//@   ensures#urls r.templateURL == old(r.templateURL) && r.schemaURL == old(r.schemaURL) && r.templateDownloaded == old(r.templateDownloaded) && r.templateString == old(r.templateString)
+//@   assigns r.schemaDownloaded, r.schema
+
+//@ define isRemote(n string) bool = strings.HasPrefix(n, "file://") || strings.HasPrefix(n, "https://") || strings.HasPrefix(n, "http://")
+//@ define CacheInv(m map[string]*RemoteTemplate) bool = forall k string :: (k in m) ==> m[k] != nil && allocated(m[k]) && RTInv(m[k]) && m[k].templateURL == k
+
+// Built-in templates come with the built-in schema; a custom template comes from its URL and its
+// schema from template-schema exactly when require-template-schema-exists is set; unknown names and
+// failed downloads are errors.
+//@ func (*TemplateGenerator).getTemplate props=C12,C09
+//@   requires g.remoteTemplateCache != nil && CacheInv(g.remoteTemplateCache)
+//@   ensures#remote isRemote(g.templateName) && err == nil ==> result0 == content(g.templateName) && ((result1 != nil) <==> g.requireSchemaExists)
+//@   ensures#schemaurl isRemote(g.templateName) && err == nil && g.requireSchemaExists ==> result1 == schemaAt(g.templateSchema)
+//@   ensures#builtin !isRemote(g.templateName) && err == nil ==> (g.templateName in styleTemplates) && result0 == styleTemplates[g.templateName] && result1 != nil
+//@         && result1 == gojsonschema.NewSchema(gojsonschema.NewStringLoader(jsonSchemas[g.templateName]))
+//@   ensures#unknown !isRemote(g.templateName) && !(g.templateName in styleTemplates) ==> err != nil
+//@   ensures#cache err == nil ==> CacheInv(g.remoteTemplateCache)
+//@   assigns g.remoteTemplateCache, fields(RemoteTemplate), fresh
